@@ -326,6 +326,9 @@ CLAUSE_DIRECTED = [
     "from t\ngroup {a, b, c, g, id} (take 1)\ntake 4", "from t\nsort {a, -b}\ntake 2..7\nfilter a > 1\ntake 3..", "from t\ntake 9223372036854775807..",
     "from t\ntake 3..\ntake 9223372036854775807..", "from t\ntake ..9223372036854775807\ntake 2..", "from t\njoin u (==id)\ntake 2..3", "from t\nsort a\nderive {r = a + 1}\ntake 1..",
     "from t\naggregate {n = count this}\ntake 1", "from t\nsort a\ntake 2\nsort b\ntake 1..1",
+    # a take in front of a distinct shares its SELECT (relational finding F19): the forced ORDER BY key is the first select item
+    "from t\nselect {a}\ntake 3\ngroup {a} (take 1)", "from t\nselect {x = a + 1, b}\ntake 2..5\ngroup {x, b} (take 1)", "from t\ntake 4\ngroup {a, b, c, g, id} (take 1)",
+    "from t\nselect {a, b}\ntake 2..\ngroup {a, b} (take 1)",
 ]
 
 
